@@ -3,9 +3,11 @@ package loader
 import (
 	"fmt"
 	"github.com/f1bonacc1/process-compose/src/command"
+	"github.com/f1bonacc1/process-compose/src/health"
 	"github.com/f1bonacc1/process-compose/src/templater"
 	"github.com/f1bonacc1/process-compose/src/types"
 	"github.com/rs/zerolog/log"
+	"maps"
 	"path/filepath"
 )
 
@@ -95,6 +97,10 @@ func cloneReplicas(p *types.Project) {
 			procsToDel = append(procsToDel, name)
 		}
 		for replica := 0; replica < proc.Replicas; replica++ {
+			// every replica owns the fields that are rendered / written per replica later on
+			proc.LivenessProbe = cloneProbe(proc.LivenessProbe)
+			proc.ReadinessProbe = cloneProbe(proc.ReadinessProbe)
+			proc.Vars = maps.Clone(proc.Vars)
 			proc.ReplicaNum = replica
 			repName := proc.CalculateReplicaName()
 			proc.ReplicaName = repName
@@ -111,6 +117,22 @@ func cloneReplicas(p *types.Project) {
 	for _, proc := range procsToAdd {
 		p.Processes[proc.ReplicaName] = proc
 	}
+}
+
+func cloneProbe(p *health.Probe) *health.Probe {
+	if p == nil {
+		return nil
+	}
+	c := *p
+	if p.Exec != nil {
+		e := *p.Exec
+		c.Exec = &e
+	}
+	if p.HttpGet != nil {
+		h := *p.HttpGet
+		c.HttpGet = &h
+	}
+	return &c
 }
 
 func assignExecutableAndArgs(p *types.Project) {
